@@ -27,8 +27,24 @@ TRUSTED = [
     "Python glue: operation generator, canonical result digests (pandas hash_pandas_object), interning of fingerprints into numbers",
 ]
 
+TRUSTED += [
+    "translators/sharedstate.py (Python ast -> inventory of shared locations and write sites + their Gallina text); tied both ways "
+    "to the live package on every run (every static location resolves, every live state-holding object has a static location)",
+    "attribution of an observed write to a source statement: the line event preceding the event at which the change is seen",
+    "cdef globals of the .pyx modules are not Python attributes (cencoding specs/children tables): invisible to the monitor",
+]
+
 BIG = 10 ** 9
 OPC = {"ok": False}
+INV = {"path": None, "inv": None, "idx": None}
+
+
+def inventory():
+    """the static inventory of this run (written by the parent into the scratch directory), loaded once per worker"""
+    if INV["inv"] is None and INV["path"] and os.path.exists(INV["path"]):
+        INV["inv"] = json.load(open(INV["path"]))
+        INV["idx"] = conc.site_index(INV["inv"])
+    return INV["inv"]
 
 
 # ---------------------------------------------------------------------------------------------
@@ -112,7 +128,7 @@ def gen_filters(rng, spec):
     return [[gen_filter1(rng, spec) for _ in range(rng.choice([1, 2]))] for _ in range(2)]
 
 
-KINDS = ["to_pandas"] * 4 + ["slice"] * 2 + ["index", "slice_only", "slice_stats", "iter", "head", "statistics", "count", "columns", "pickle"]
+KINDS = ["to_pandas"] * 4 + ["slice"] * 2 + ["index", "slice_only", "slice_stats", "iter", "head", "statistics", "count", "columns", "pickle", "schema_text"]
 
 
 def gen_op(rng, spec, kind=None):
@@ -224,6 +240,7 @@ def run(ctx):
         rc, out = C.run(["coqchk", "-o", "-silent", "-Q", os.path.join(C.COQ, "theories"), "Pq", "Pq.Proofs.InterleaveProofs"], timeout=900)
         ctx.obligation("coqchk -o Pq.Proofs.InterleaveProofs: axioms <none>", rc == 0 and "Axioms: <none>" in out, out[-1500:])
         ctx.checker_cmds.append("coqchk -o -silent -Q coq/theories Pq Pq.Proofs.InterleaveProofs")
+    static_inventory(ctx)
     C.use_shadow()
     quick = ctx.quick()
     rng = ctx.rng
@@ -253,9 +270,10 @@ def run(ctx):
     if not os.path.isdir(os.path.join(C.REPO, "test-data")):
         ctx.notes.append("no test-data directory under VERIF_REPO: foreign files skipped")
         names = []
-    base = {"quick": quick, "seed": ctx.seed, "scratch": ctx.scratch}
+    base = {"quick": quick, "seed": ctx.seed, "scratch": ctx.scratch, "inv_path": INV["path"]}
     out = apply_jobs(ctx, [dict(base, phase="build", specs=specs, names=names)], jt)
     built = out[0] if out and out[0] else {"datasets": []}
+    inventory_tie(ctx, built.get("coverage"))
     datasets = [(sp, pa) for sp, pa in built["datasets"]]
     for sp, _ in datasets:
         if sp["kind"] == "file":
@@ -292,14 +310,76 @@ def run(ctx):
         base["broken"] = True
         extra = [dict(base, phase="storm", datasets=[d], share=len(datasets), tag="b%d" % di) for di, d in enumerate(datasets)]
         seen_t = set()
-        for t in fp_state.get("targets", []):
-            key = (t["di"], t["op"]["op"], t["opcodes"])
-            if key in seen_t or len(seen_t) >= 6:
+        covered = fp_state.get("covered", {})
+        site_targets = [t for t in fp_state.get("targets", []) if "site" in t]
+        for s_ in INV.get("static_bad", []) or []:
+            hit = None
+            for ln in range(s_["line"], s_["end_line"] + 1):
+                for (di_, op_, ph_) in covered.get((s_["file"], ln), []):
+                    if ph_.startswith("fresh"):
+                        hit = (di_, op_)
+                        break
+                if hit:
+                    break
+            if hit:
+                site_targets.append({"di": hit[0], "op": hit[1], "site": [s_["file"], s_["line"], s_["end_line"]], "opcodes": False, "pattern": s_["pattern"]})
+            else:
+                site_targets.append({"di": 0, "part": True, "site": [s_["file"], s_["line"], s_["end_line"]], "opcodes": False, "pattern": s_["pattern"]})
+        for t in [t for t in fp_state.get("targets", []) if "site" not in t] + site_targets:
+            key = (t["di"], t.get("op", {}).get("op"), t["opcodes"], tuple(t.get("site", ())))
+            if key in seen_t or len(seen_t) >= 8:
                 continue
             seen_t.add(key)
-            extra.append(dict(base, phase="targeted", datasets=[datasets[t["di"]]], target=t, tag="t%d" % len(seen_t)))
+            extra.append(dict(base, phase="targeted" if "site" not in t else "site_search", datasets=[datasets[t["di"]]], target=t,
+                              tag="t%d" % len(seen_t)))
         apply_jobs(ctx, extra, jt)
         lap("search_after_broken_premise")
+
+
+def static_inventory(ctx):
+    """tie 0: the inventory of shared locations and write sites, regenerated from the sources of this run; the static
+    footprint condition is re-proved on the regenerated text (coq/genproofs/GenSharedInvProofs.v)"""
+    from translators import sharedstate
+    res = sharedstate.run(C.REPO, ctx.gen_dir)
+    ctx.extra["translator"] = {"sharedstate": {"status": res["status"], "reason": res.get("reason")}}
+    if res["status"] != "ok":
+        ctx.notes.append("translator_fallback: sharedstate: %s (the monitor falls back to the live enumeration of module/class/default state; "
+                         "write sites are not classified)" % res.get("reason"))
+        return
+    inv = res["inventory"]
+    INV["path"] = os.path.join(ctx.scratch, "inventory.json")
+    json.dump({k: inv[k] for k in ("locations", "sites")}, open(INV["path"], "w"))
+    INV["inv"], INV["idx"] = inv, conc.site_index(inv)
+    ok, out = C.coqc(res["file"], extra_q=[(ctx.gen_dir, "PqGen")])
+    if not ok:
+        ctx.notes.append("translator_fallback: sharedstate: generated file rejected by coqc: %s" % out[-300:])
+        ctx.extra["translator"]["sharedstate"]["status"] = "translator_fallback"
+        return
+    ctx.coq_file(os.path.join(C.COQ, "genproofs", "GenSharedInvProofs.v"), extra_q=[(ctx.gen_dir, "PqGen")])
+    bad = [s_ for s_ in inv["sites"] if not s_["import_time"] and s_["base"] in ("global", "default", "classattr")
+           and s_["pattern"] in ("augmented", "rmw", "set_restore", "multi_store", "delete", "mutcall")]
+    ctx.extra["inventory"] = {"locations": len(inv["locations"]), "sites": len(inv["sites"]),
+                              "sites_on_static_shared_bases": sum(1 for s_ in inv["sites"] if s_["base"] in ("global", "default", "classattr") and not s_["import_time"]),
+                              "patterns": {p_: sum(1 for s_ in inv["sites"] if s_["pattern"] == p_) for p_ in sharedstate.PATTERNS},
+                              "static_offenders": [{k: s_[k] for k in ("file", "line", "func", "pattern", "base", "base_name", "target")} for s_ in bad][:20]}
+    INV["static_bad"] = bad
+
+
+REFUTED_BY = {"augmented": "C20_rmw_refuted / C20_rmw_lost_update_refuted", "rmw": "C20_rmw_refuted", "set_restore": "C20_set_restore_refuted",
+              "multi_store": "C20_publish_update_refuted", "mutcall": "C20_scratch_refuted / C20_rmw_refuted (non-idempotent builtin mutator)",
+              "delete": "removal of a published key (classify: destructive)"}
+
+
+def inventory_tie(ctx, cov):
+    if cov is None:
+        return
+    ctx.extra["inventory_coverage"] = {k: (v if not isinstance(v, list) else v[:20]) for k, v in cov.items()}
+    ctx.obligation("inventory tie: every location of the regenerated inventory resolves in the live package",
+                   not cov["unresolved"], "static locations with no live object: %s" % cov["unresolved"][:10])
+    ctx.obligation("inventory tie: every live state-holding object (module / class / default-argument / function level) has a location "
+                   "in the regenerated inventory", not cov["dynamic_only"], "live objects unknown to the source inventory: %s" % cov["dynamic_only"][:10])
+    ctx.obligation("inventory tie: every shared location is inspectable by the footprint monitor (or of a trusted thread-safe type)",
+                   not cov["opaque"], "objects the fingerprint cannot look into: %s" % cov["opaque"][:10])
 
 
 def _worker_init():
@@ -359,6 +439,7 @@ def _job(job):
     import time
     t0 = time.time()
     rec = Rec(job)
+    INV["path"] = job.get("inv_path") or INV["path"]
     OPC["ok"] = conc.warm_opcodes()
     rec.extra["opcode_tracing"] = OPC["ok"]
     ph = job["phase"]
@@ -374,6 +455,9 @@ def _job(job):
             spec = foreign_dataset(name)
             ds.append((spec, conc.build_dataset(spec, None)))
         value = {"datasets": ds}
+        if inventory() is not None:
+            from fastparquet import writer, api, core, encoding, dataframe, converted_types, schema, util  # noqa (all modules live)
+            value["coverage"] = conc.inventory_coverage(inventory())
     else:
       try:
           datasets = [(sp, pa, Solo(pa, rec, sp)) for sp, pa in job.get("datasets", [])]
@@ -397,6 +481,8 @@ def _job(job):
               stress(rec, datasets, rec.rng, quick, job["r0"], job["r1"])
           elif ph == "targeted":
               targeted_search(rec, datasets, rec.rng, quick, job["target"])
+          elif ph == "site_search":
+              site_search(rec, datasets, rec.rng, quick, job["target"])
           else:
               raise ValueError(ph)
       except Hung as e:
@@ -501,12 +587,15 @@ FIXED_OPS = [
     {"op": "count", "filters": [["t", "<", {"dt": "2020-01-02T03:00"}], ["s", ">=", "r2"]]},
     {"op": "slice", "i": 0, "j": 2, "filters": [["t", ">", {"dt": "2020-01-01T05:00"}]]},
     {"op": "slice_stats", "i": 1, "j": None},
+    {"op": "schema_text"},
 ]
 
 
 def _fp_job(job):
     """worker process: trace the operations of one job (fresh handle per operation, or one warm handle)"""
     path, phase, ops = job["path"], job["fp_phase"], job["ops"]
+    INV["path"] = job.get("inv_path") or INV["path"]
+    inventory()
     import warnings
     warnings.simplefilter("ignore")
     warnings.showwarning = lambda *a, **k: None
@@ -524,30 +613,34 @@ def _fp_job(job):
             if isinstance(want, list) and want[:2] == ["EXC", "TimeoutError"] and "did not return within" in str(want[2]):
                 raise TimeoutError(want[2])
         except TimeoutError as e:
-            out.append((op, ["EXC", "TimeoutError", "alone: " + str(e)], [("start", {})], 0, 0, None))
+            out.append((op, ["EXC", "TimeoutError", "alone: " + str(e)], [("start", {})], 0, 0, None, [], []))
             break
+        cover = set()
         try:
             res, changes, nlines, scr = with_alarm((600 if not job["quick"] else 180) if opc else 120,
-                                                   conc.trace_footprint, pf, op, None, None, conc.FULL_EVERY, opc)
+                                                   conc.trace_footprint, pf, op, None, None, conc.FULL_EVERY, opc, cover)
         except TimeoutError:
             # the operation returns when run alone (just checked): the monitor was too slow on this machine right now
             notes.append("footprint of %s (%s) not taken: the traced run exceeded its time budget" % (okey(op), phase))
             continue
-        out.append((op, conc.canon(res), changes, nlines, scr, want))
+        evs = [(k_, o_, n_, p_, (st["file"], st["line"], st["end_line"], st["func"]) if st else conc.tag_prev(changes[-1][0]))
+               for k_, o_, n_, p_, st in conc.trace_events(changes, INV["idx"] or {})] if INV["idx"] is not None else []
+        out.append((op, conc.canon(res), changes, nlines, scr, want, evs, sorted(cover)))
     return {"calls": [], "extra": {"footprints_skipped_slow": len(notes)}, "notes": notes, "value": out}
 
 
 def footprint_jobs(ctx, datasets, rng, quick):
     jobs, owner = [], []
     sels = {}
-    mk = lambda path, ph, ops: {"phase": "footprint", "path": path, "fp_phase": ph, "ops": ops, "quick": quick, "seed": ctx.seed}
+    mk = lambda path, ph, ops: {"phase": "footprint", "path": path, "fp_phase": ph, "ops": ops, "quick": quick, "seed": ctx.seed,
+                                "inv_path": INV["path"]}
     for di, (spec, path) in enumerate(datasets):
         ops = fixed_ops(spec)
         ops += [gen_op(rng, spec) for _ in range(2 if quick else 6)]
         for i in range(0, len(ops), 3):
             jobs.append(mk(path, "fresh", ops[i:i + 3]))
             owner.append(di)
-        wsel = (ops[1:3] + ops[3:4] + ops[8:10] + ops[11:14]) if quick else ops
+        wsel = (ops[1:3] + ops[3:4] + ops[8:10] + ops[11:14] + [o for o in ops if o["op"] in ("slice_stats", "schema_text")][:2]) if quick else ops
         sels[di] = wsel
         half = (len(wsel) + 1) // 2           # two warm handles per dataset (shorter critical path)
         for part in (wsel[:half], wsel[half:]):
@@ -556,7 +649,7 @@ def footprint_jobs(ctx, datasets, rng, quick):
                 owner.append(di)
         # the same premise at bytecode granularity (every instruction of fastparquet frames) for the short operations,
         # in the thorough tier for all
-        short = [o for o in ops if o["op"] in ("slice_only", "count", "statistics", "columns", "head")]
+        short = [o for o in ops if o["op"] in ("slice_only", "count", "statistics", "columns", "head", "schema_text")]
         osel = (short[:3] + short[-2:]) if (quick or spec["kind"] == "file") else (short + [o for o in ops if o["op"] in ("slice", "pickle", "index")][:4] + ops[1:3])
         for i in range(0, len(osel), 3):
             jobs.append(mk(path, "fresh-opcode", osel[i:i + 3]))
@@ -569,14 +662,19 @@ def footprint_premise(ctx, pq, datasets, jobs, results, state):
     parent handle must be a memo add, and all traces must agree on one value per key"""
     owner, sels = state["owner"], state["sels"]
     targets = state.setdefault("targets", [])
+    covered = state.setdefault("covered", {})
     for di, (spec, path) in enumerate(datasets):
         inter = conc.Interner()
         traces, metas = [], []
+        all_events = []
         for job, res_list, own in zip(jobs, results, owner):
             if own != di or res_list is None:
                 continue
             phase = job["fp_phase"]
-            for op, got, changes, nlines, scr, want in res_list:
+            for op, got, changes, nlines, scr, want, evs, cover in res_list:
+                all_events.append((phase, op, evs))
+                for fl in cover:
+                    covered.setdefault(tuple(fl), []).append((di, op, phase))
                 kinds = conc.classify_trace(changes)
                 case = {"footprint": phase, "dataset": spec, "op": op}
                 ctx.case(case)
@@ -627,6 +725,7 @@ def footprint_premise(ctx, pq, datasets, jobs, results, state):
                 ctx.obligation(name, True)
         ctx.obligation("footprint premise [ds%d]: one value per key over all traces (memo values are functions of immutable data)" % di,
                        bool(merged), "two snapshots disagree on the value of a key")
+        footprint_events(ctx, di, all_events, targets)
         ctx.extra.setdefault("memo_keys_written", [])
         seen = set(ctx.extra["memo_keys_written"])
         for case, kinds, _ in metas:
@@ -634,6 +733,53 @@ def footprint_premise(ctx, pq, datasets, jobs, results, state):
                 for k in t[2]["added"]:
                     seen.add(conc_generic_key(k))
         ctx.extra["memo_keys_written"] = sorted(seen)[:60]
+
+
+def footprint_events(ctx, di, all_events, targets):
+    """the decidable footprint condition of Conc/Footprint.v (extracted: conc_footprint_check) on the write events observed
+    for this dataset over all traces: every write of every location is an idempotent publication (absent -> value, or the
+    same value again), one value per location, and no write sits at a site of a refuted pattern"""
+    if INV["idx"] is None:
+        return
+    keys, vals = {}, {}
+    flat, meta = [], []
+    for phase, op, evs in all_events:
+        for k_, o_, n_, p_, site in evs:
+            flat.append([keys.setdefault(k_, len(keys)), [] if o_ is None else [vals.setdefault(o_, len(vals))],
+                         [] if n_ is None else [vals.setdefault(n_, len(vals))], conc.PATTERN_CODE[p_]])
+            meta.append((phase, op, k_, o_, n_, p_, site))
+    ctx.count("footprint.events", min(len(flat) // 100 * 100, 5000))
+    sites_seen = ctx.extra.setdefault("observed_write_sites", {})
+    for m in meta:
+        if m[6] is not None:
+            key = "%s:%s %s" % (m[6][0], m[6][1], m[5])
+            sites_seen[key] = sites_seen.get(key, 0) + 1
+    out = pq_once(("conc_footprint_check", flat), 300) if flat else [1, []]
+    if out is None:
+        ctx.obligation("footprint condition [ds%d]: extracted checker answered" % di, False, "pqref conc_footprint_check timed out or died")
+        return
+    ok_model = bool(out[0])
+    # the same condition evaluated in Python (model vs harness view of the same events)
+    table, py_bad = {}, None
+    for i, (phase, op, k_, o_, n_, p_, site) in enumerate(meta):
+        good = n_ is not None and (o_ is None or o_ == n_) and p_ not in REFUTED_BY
+        if good and table.setdefault(k_, n_) != n_:
+            good = False
+        if not good:
+            py_bad = i
+            break
+    ctx.correspondence("footprint_ok (extracted) ~ python evaluation of the footprint condition", {"dataset": di, "events": len(flat)},
+                       None if not out[1] else int(out[1][0][0]), py_bad)
+    detail = ""
+    if not ok_model and out[1]:
+        i = int(out[1][0][0])
+        phase, op, k_, o_, n_, p_, site = meta[i]
+        detail = "event %d: location %s: %r -> %r during %s (%s) at %s, pattern %s%s" % (
+            i, k_, o_, n_, okey(op), phase, site, p_, (" - refuted by " + REFUTED_BY[p_]) if p_ in REFUTED_BY else "")
+        if site is not None and len(site) == 4 and phase.startswith("fresh"):
+            targets.append({"di": di, "op": op, "site": list(site[:3]), "opcodes": phase.endswith("opcode"), "pattern": p_})
+    ctx.obligation("footprint condition [ds%d]: every observed write of every inventory location is an idempotent publication at a "
+                   "site of a non-refuted pattern (extracted footprint_ok, %d events)" % (di, len(flat)), ok_model, detail)
 
 
 def pq_once(cmd, timeout):
@@ -820,6 +966,44 @@ def targeted_search(ctx, datasets, rng, quick, target):
                     ctx.extra["targeted_runs"] = ctx.extra.get("targeted_runs", 0) + runs
                     return
     ctx.extra["targeted_runs"] = ctx.extra.get("targeted_runs", 0) + runs
+
+
+def site_search(ctx, datasets, rng, quick, target):
+    """A write site (file, line) follows a refuted pattern, or a write observed there is not an idempotent publication.
+    Look for the victim with the witness interleavings of the refuted theorems: thread A is preempted right after it LEFT
+    the statement (its n-th execution) or INSIDE it (after its j-th bytecode instruction); B - the same operation, then
+    readers - runs completely in the gap; then A finishes."""
+    file, line, end = target["site"]
+    if target.get("part"):
+        spec = gen_dataset(rng, "single", small=True)
+        spec["nthreads"] = 2
+        plans = [([[0, n, "left", file, line], [1, BIG, "lines"]], False) for n in (1, 2, 3, 5)]
+        plans += [([[0, j, "in", file, line], [1, BIG, "lines"]], True) for j in (1, 2, 3, 5, 8, 12)]
+        plans += [([[0, n, "left", file, line], [1, m, "left", file, line], [0, BIG, "lines"], [1, BIG, "lines"]], False) for n in (1, 2) for m in (1, 2)]
+        res = part_round(spec, ctx.scratch, "site%s%d" % (file.replace(".", "_"), line), rng, trace=True, extra_plans=plans)
+        ctx.case({"mode": "part", "dataset": spec, "site": target["site"]})
+        ctx.count("forced.kind", "site-part")
+        if res["bad"]:
+            ctx.fail({"component": "part-writer", "op": "part", "symptom": res["bad"][0][1], "mode": res["bad"][0][0]},
+                     {"mode": "part", "dataset": spec, "bad": res["bad"][:3], "site": target["site"]},
+                     "part files written from threads differ from the sequential ones (writer preempted at %s:%d): %r" % (file, line, res["bad"][:2]))
+        return
+    spec, path, solo = datasets[0]
+    a = target["op"]
+    first = spec["cols"][0] if spec.get("cols") else None
+    readers = [a, {"op": "schema_text"}, {"op": "columns"}, {"op": "statistics"},
+               {"op": "to_pandas", "columns": [first]} if first else {"op": "to_pandas"}, {"op": "count"}]
+    runs = 0
+    for b in readers:
+        plans = [([[0, n, "left", file, line], [1, BIG, "lines"]], False) for n in (1, 2, 3)]
+        if OPC["ok"]:
+            plans += [([[0, j, "in", file, line], [1, BIG, "lines"]], [True, False]) for j in (1, 2, 3, 4, 6, 8, 12, 16)]
+        for plan, opc in plans:
+            runs += 1
+            if check_pair(ctx, spec, path, solo, [a, b], plan, "site", opc):
+                ctx.extra["site_search_runs"] = ctx.extra.get("site_search_runs", 0) + runs
+                return
+    ctx.extra["site_search_runs"] = ctx.extra.get("site_search_runs", 0) + runs
 
 
 def multi_switch(ctx, datasets, rng, quick):
@@ -1043,7 +1227,7 @@ def part_writers(ctx, pq, rng, quick):
                      dict(case, bad=res["bad"][:3]), "part files written from threads differ from the sequential ones: %r" % (res["bad"][:3],))
 
 
-def part_round(spec, scratch, tag, rng, trace=False, reps=1):
+def part_round(spec, scratch, tag, rng, trace=False, reps=1, extra_plans=None):
     import numpy as np
     from fastparquet import writer
     df = conc.build_frame(spec)
@@ -1088,11 +1272,12 @@ def part_round(spec, scratch, tag, rng, trace=False, reps=1):
                   for k in range(1, min(nw, 3) + 1) for j in range(1, min(nw, 3) + 1)]
         plans += [[[0, rng.randrange(1, max(2, nl)), "lines"], [1, 10 ** 9, "lines"]] for _ in range(2)]
         plans.append([[0, max(1, nl - rng.randrange(1, 12)), "lines"], [1, 10 ** 9, "lines"]])
-        for pi, plan in enumerate(plans):
+        plans = [(p_, False) for p_ in plans] + list(extra_plans or [])
+        for pi, (plan, popc) in enumerate(plans):
             a, b = rng.sample(range(nt), 2)
             shf = dict(shared, paths=paths("forced%d" % pi))
             res, steps, dead = conc.forced_run(None, [{"op": "part", "i": a}, {"op": "part", "i": b}], [list(p) for p in plan], shared=shf, root=fmd,
-                                               timeout=90.0)
+                                               timeout=90.0, opcodes=popc)
             if dead:
                 e_, l_, h_ = conc.stress_run(None, [[{"op": "part", "i": a}], [{"op": "part", "i": b}]], rng, shared=shf, switch=0.005, deadline_s=240.0)
                 if not h_:
